@@ -158,6 +158,12 @@ func (s *Server) doMergeKeysCommand(conn redcon.Conn, cmdName string, cmd redcon
 		conn.WriteError(err.Error())
 		return
 	}
+	if cmdName == "plset" && len(cmd.Args)%2 == 0 {
+		// plset takes key value pairs, a key without value would be dropped without any reply
+		err := fmt.Errorf("ERR wrong number of arguments for '%s' command", string(cmd.Args[0]))
+		conn.WriteError(err.Error())
+		return
+	}
 
 	cmds, results, err := s.dispatchAndWaitMergeCmd(cmd)
 	if err != nil {
